@@ -89,50 +89,66 @@ def corpus():
 # ------------------------------------------------------------------------------------------------
 
 def api_cases(ctx):
+    """Generator of (tag, spec). Every ill-formed spec is followed by its repaired twin as a well-formed control."""
     rng = ctx.rng
-    cases = [(tag, s) for tag, s in corpus()]
+
+    def with_control(tag, s):
+        yield (tag, s)
+        if dagproj.analyse(s)["ill"]:
+            yield ("control", dagproj.repair(s))
+
+    for tag, s in corpus():
+        yield (tag, s)
     # exhaustive small scope (thorough: all; quick: a seeded slice)
-    total = 0
-    keep_p = 1.0 if ctx.thorough else min(1.0, 9000 * ctx.budget / 250000)
+    total = run = 0
+    keep_p = 1.0 if ctx.thorough else min(1.0, 5000 * ctx.budget / 245008)
     for c in dagproj.enum_small(3, 3):
         total += 1
         if keep_p < 1.0 and rng.random() >= keep_p:
             continue
+        run += 1
         T, cols, aft = c
         style_bits = rng.randrange(27) if aft else 0
         py_bits = rng.randrange(1 << len(cols)) if (cols and rng.random() < 0.25) else 0
         s = dagproj.small_to_spec(c, style_bits, py_bits)
         if py_bits and rng.random() < 0.5:
             s["wrap"] = [[t["id"], n] for t in s["tasks"] for n in t["deps"] if n in s["py"] and rng.random() < 0.5]
-        cases.append(("small", s))
+        yield from with_control("small", s)
     ctx.extra["small_scope_total"] = total
-    ctx.extra["small_scope_run"] = sum(1 for t, _ in cases if t == "small")
+    ctx.extra["small_scope_run"] = run
     ctx.exhaustive = ctx.thorough
-    # random up to 8 tasks; half of them are made ill-formed
-    for _ in range(ctx.scale(1500, 30000)):
+    # random up to 8 tasks; about half of them are made ill-formed
+    for _ in range(ctx.scale(1200, 30000)):
         ill = rng.random() < 0.45
-        cases.append(("rand", dagproj.gen_random(rng, nt=(2, 8), cyclic_p=0.8 if ill else 0.0, shared_p=0.35 if ill else 0.0)))
-    # cycles of every length, through files / PythonNodes / after / mixed, each with its repaired twin
-    for _ in range(ctx.scale(10, 150)):
+        yield from with_control("rand", dagproj.gen_random(rng, nt=(2, 8), cyclic_p=0.8 if ill else 0.0, shared_p=0.35 if ill else 0.0))
+    # cycles of every length, through files / PythonNodes / after / mixed
+    for _ in range(ctx.scale(8, 150)):
         for length in range(1, 7):
             for through in ("file", "py", "after", "mixed"):
-                s = dagproj.gen_cycle(rng, length, through)
-                cases.append((f"cycle{length}", s))
-                cases.append(("control", dagproj.repair(s)))
+                yield from with_control(f"cycle{length}", dagproj.gen_cycle(rng, length, through))
     # shared products, 2..4 producers, per spelling and mixed, files and PythonNodes
-    for _ in range(ctx.scale(6, 80)):
+    for _ in range(ctx.scale(5, 80)):
         for k in (2, 3, 4):
             for mode in ("mixed",) + dagproj.SPELLINGS:
-                s = dagproj.gen_shared(rng, k, mode)
-                cases.append((f"shared{k}", s))
-                cases.append(("control", dagproj.repair(s)))
-            cases.append((f"shared{k}py", dagproj.gen_shared(rng, k, py=True)))
-    return cases
+                yield from with_control(f"shared{k}", dagproj.gen_shared(rng, k, mode))
+            yield from with_control(f"shared{k}py", dagproj.gen_shared(rng, k, py=True))
 
 
-def check_api(ctx, cases):
-    nw = 8
-    seeds = [ctx.rng.randrange(1, 4_000_000_000) for _ in range(nw)]
+def check_api_stream(ctx, gen, chunk=20000):
+    seeds = [ctx.rng.randrange(1, 4_000_000_000) for _ in range(8 if not ctx.thorough else 16)]
+    buf = []
+    for item in gen:
+        buf.append(item)
+        if len(buf) >= chunk:
+            check_api(ctx, buf, seeds)
+            buf = []
+    if buf:
+        check_api(ctx, buf, seeds)
+
+
+def check_api(ctx, cases, seeds=None):
+    if seeds is None:
+        seeds = [ctx.rng.randrange(1, 4_000_000_000) for _ in range(8)]
     answers = dagproj.run_api([dagproj.api_case(s) for _, s in cases], seeds)
     drv = ctx.driver() if ctx.use_model else None
     model_ans = None
@@ -191,7 +207,7 @@ def e2e_cases(ctx):
     cases = [(tag, s) for tag, s in corpus()]
     # a seeded slice of the small scope with every after-form
     small = list(dagproj.enum_small(3, 3)) if ctx.thorough else None
-    n_small = ctx.scale(60, 1500)
+    n_small = ctx.scale(30, 1500)
     if small is None:
         # reservoir over the generator without materialising it
         pick = []
@@ -210,23 +226,26 @@ def e2e_cases(ctx):
         dagproj.add_spellings(rng, s)
         s["stale"] = rng.random() < 0.4
         cases.append(("small", s))
-    for _ in range(ctx.scale(70, 1200)):
+    for _ in range(ctx.scale(40, 1200)):
         ill = rng.random() < 0.45
         cases.append(("rand", dagproj.gen_random(rng, nt=(2, 8), cyclic_p=0.8 if ill else 0.0, shared_p=0.35 if ill else 0.0)))
     for _ in range(ctx.scale(1, 12)):
         for length in range(1, 7):
             for through in ("file", "py", "after", "mixed"):
-                s = dagproj.gen_cycle(rng, length, through)
-                cases.append((f"cycle{length}", s))
-                if rng.random() < 0.5:
-                    cases.append(("control", dagproj.repair(s)))
+                cases.append((f"cycle{length}", dagproj.gen_cycle(rng, length, through)))
     for _ in range(ctx.scale(1, 10)):
         for k in (2, 3, 4):
             for mode in ("mixed", rng.choice(dagproj.SPELLINGS)):
-                s = dagproj.gen_shared(rng, k, mode)
-                cases.append((f"shared{k}", s))
-                cases.append(("control", dagproj.repair(s)))
+                cases.append((f"shared{k}", dagproj.gen_shared(rng, k, mode)))
             cases.append((f"shared{k}py", dagproj.gen_shared(rng, k, py=True)))
+    # every ill-formed project is repaired and built again anyway (second build); add independent well-formed controls up to >= 50 %
+    n_ill = sum(1 for _, s in cases if dagproj.analyse(s)["ill"])
+    n_well = len(cases) - n_ill
+    while n_well < n_ill:
+        s = dagproj.gen_random(rng, nt=(2, 8))
+        if not dagproj.analyse(s)["ill"]:
+            cases.append(("control", s))
+            n_well += 1
     return cases
 
 
@@ -357,8 +376,13 @@ def run(ctx):
                 "products shared by 2..4 tasks; (b) generated projects built through pytask.build (after as function / list / expression, path spellings "
                 "rel, ./, c/../, absolute), rejected projects repaired and built again; oracle from the declarations (own DFS); "
                 "non-trivial = ill-formed, or at least one dependency / after declaration; distinct by canonical (layer, declarations)")
-    check_api(ctx, api_cases(ctx))
+    import time
+    t0 = time.time()
+    check_api_stream(ctx, api_cases(ctx))
+    t1 = time.time()
     check_e2e(ctx, e2e_cases(ctx))
+    ctx.extra["wall_api_s"] = round(t1 - t0, 1)
+    ctx.extra["wall_e2e_s"] = round(time.time() - t1, 1)
     well = ctx.dist.get("api:well", 0) + ctx.dist.get("e2e:well", 0)
     ill = ctx.dist.get("api:ill", 0) + ctx.dist.get("e2e:ill", 0)
     ctx.extra["wellformed_share"] = round(well / max(1, well + ill), 3)
